@@ -203,7 +203,8 @@ pub fn run_session(opts: &str, cmds: &str, events: &str, rules: &str) -> Session
         if has("pv") {
             options.preview = Some("echo {}");
         }
-        options.cmd = Some(if interactive { "c{}" } else { "c0" });
+        // `fixcmd`: an interactive command template WITHOUT the replace string — the command never changes, whatever is typed
+        options.cmd = Some(if interactive && !has("fixcmd") { "c{}" } else { "c0" });
         if interactive {
             options.cmd_query = Some("0");
         }
